@@ -102,6 +102,8 @@ def generate(seed, tier, index, kf):
     if mode == "concurrent":
         for op in ops:
             op["when"] = {"delay": r.choice((0.0, 0.0, 0.001, 0.01, 0.1))}
+        if r.random() < 0.15:
+            prog["knobs"]["sock_buf"] = r.choice((128, 512, 2048))  # several writers to one slow session
     return prog
 
 
